@@ -20,5 +20,5 @@ REQUIRED_CLASSES = {t: ["offer:add_edge:merge:noforce", "offer:add_edge:merge:fo
                         "offer:add_edge:non_forward:noforce", "offer:add_edge:non_forward:force",
                         "offer:add_node:upstream_division:noforce", "offer:add_node:upstream_division:force"]
                     for t in ("quick", "thorough")}
-run_shard, replay, minimise = make(C03Oracle, quick=(480, 30), thorough=(6400, 50), profile="structure",
+run_shard, replay, minimise = make(C03Oracle, quick=(3200, 30), thorough=(6400, 50), profile="structure",
                                    refusal_bias=0.1, init_kwargs={"max_nodes": 10})
